@@ -131,6 +131,8 @@ def compile_run(cpp: str, passes: int = 3, inputs: str = "", san: bool = False, 
 def run_script(job: dict) -> dict:
     """job = {"src":..., "passes":N, "inputs":"", "san":bool, "syntax_only":bool}. One full firmware leg."""
     t = transpile(job["src"], job.get("ttimeout", 20))
+    if job.get("again") and t["status"] == "accept":      # the emission of a process that has seen this script before
+        t = transpile(job["src"], job.get("ttimeout", 20))
     out = {"transpile": t["status"]}
     if t["status"] != "accept":
         out.update({k: t.get(k) for k in ("cls", "msg")})
